@@ -28,7 +28,7 @@ use crate::resources::{TextResource, TextResourceHandle};
 use crate::selector::{Selector, SelectorKind};
 use crate::substore::AnnotationSubStore;
 use crate::textselection::{
-    ResultTextSelection, ResultTextSelectionSet, TextSelectionOperator, TextSelectionSet,
+    ResultTextSelection, ResultTextSelectionSet, TextSelectionOperator,
 };
 use crate::{Filter, FilterMode, TextMode};
 
@@ -259,13 +259,12 @@ impl<'store> ResultItem<'store, Annotation> {
         &self,
         operator: TextSelectionOperator,
     ) -> impl Iterator<Item = ResultTextSelection<'store>> {
-        //first we gather all textselections for this annotation in a set, as the chosen operator may apply to them jointly
-        let tset: TextSelectionSet = self.textselections().collect();
-        //(an annotation that selects no text has no related text; an empty set belongs to no resource)
-        (!tset.is_empty())
-            .then(|| tset.as_resultset(self.store()).related_text(operator))
-            .into_iter()
-            .flatten()
+        //first we gather the textselections of this annotation in sets, one per resource, as the
+        //chosen operator may apply to them jointly (text in different resources stands in no
+        //relation: each resource is searched with the part of the annotation that lies in it)
+        //(an annotation that selects no text has no sets and no related text)
+        self.textselectionsets()
+            .flat_map(move |tset| tset.related_text(operator))
     }
 
     /// Returns the text this resources references as a single text selection set.
